@@ -311,6 +311,7 @@ pub fn bytes_alphabet(large: bool) -> Vec<(String, Vec<u8>)> {
     if large {
         v.push(("len65535".into(), (0..65535u32).map(|i| (i % 251) as u8).collect()));
         v.push(("len65536".into(), (0..65536u32).map(|i| (i % 253) as u8).collect()));
+        v.push(("len65k-200001".into(), (0..200_001u32).map(|i| (i % 239) as u8).collect()));
     }
     v
 }
